@@ -25,14 +25,15 @@ Inductive val := VLeaf (n : nat) | VNode (k : kind) (items : list (key * val)).
    [id]; the same id again (as [ORef id] or as another [ONode id]) is THE SAME
    object (shared, or - when it encloses the reference - a cycle).
    [OBlank k] is an empty immutable produced by calling the type ([()],
-   [frozenset()]); [OAlias id k] only occurs in observations of the
+   [frozenset()]); [OVal v] only occurs in rebuilt values; [OAlias id k] only occurs in observations of the
    implementation's output: "this output container IS input container id". *)
 Inductive obj :=
 | OLeaf (n : nat)
 | ONode (id : nat) (k : kind) (items : list (key * obj))
 | ORef (id : nat) (k : kind)
 | OBlank (k : kind)
-| OAlias (id : nat) (k : kind).
+| OAlias (id : nat) (k : kind)
+| OVal (v : val).      (* a fresh value made by a visit callback: every container in it a new, unshared object *)
 
 Definition kind_idx (k : kind) : nat :=
   match k with KList => 0 | KTuple => 1 | KDict => 2 | KSet => 3 | KFrozen => 4 end.
@@ -162,7 +163,11 @@ Fixpoint erase (o : obj) : val :=
   | OLeaf n => VLeaf n
   | ONode _ k items => VNode k (map (fun kv => (fst kv, erase (snd kv))) items)
   | ORef _ k | OBlank k | OAlias _ k => VNode k []
+  | OVal v => v
   end.
+
+(* a value returned by visit, as an object term (leaves have no identity) *)
+Definition oval (v : val) : obj := match v with VLeaf n => OLeaf n | _ => OVal v end.
 
 Fixpoint inject_from (v : val) (n : nat) {struct v} : obj * nat :=
   match v with
@@ -220,8 +225,27 @@ Fixpoint eview (fuel : nat) (defs : table obj) (o : obj) : val :=
       | ONode _ k items => VNode k (map (fun kv => (fst kv, eview f defs (snd kv))) items)
       | ORef id k => match t_get defs id with Some d => eview f defs d | None => VNode k [] end
       | OBlank k | OAlias _ k => VNode k []
+      | OVal v => v
       end
   end.
+
+(* canonical form of a fresh pure value: new numbers for all its containers
+   (applied to the normal form, in which set members are already sorted) *)
+Fixpoint number_val (v : val) (next : nat) {struct v} : obj * nat :=
+  match v with
+  | VLeaf n => (OLeaf n, next)
+  | VNode KTuple [] => (OBlank KTuple, next)
+  | VNode k items =>
+      let '(items', n') :=
+        (fix go (l : list (key * val)) (n : nat) : list (key * obj) * nat :=
+           match l with
+           | [] => ([], n)
+           | (ky, c) :: r => let '(c', n1) := number_val c n in
+                             let '(r', n2) := go r n1 in ((ky, c') :: r', n2)
+           end) items (S next) in
+      (ONode next k items', n')
+  end.
+Definition canon_val (v : val) (next : nat) : obj * nat := number_val (vnorm v) next.
 
 Record cstate := { c_seen : table (nat * kind * bool); c_next : nat }.
 
@@ -238,6 +262,7 @@ Fixpoint canon_go (fuel : nat) (defs : table obj) (st : cstate) (o : obj) : opti
       match o with
       | OLeaf n => Some (OLeaf n, st)
       | OAlias id k => Some (OAlias id k, st)
+      | OVal v => let '(c, n) := canon_val v (c_next st) in Some (c, {| c_seen := c_seen st; c_next := n |})
       | OBlank KTuple => Some (OBlank KTuple, st)
       | OBlank k => Some (ONode (c_next st) k [], {| c_seen := c_seen st; c_next := S (c_next st) |})
       | ORef id k =>
@@ -313,6 +338,7 @@ Fixpoint obj_eqb (a b : obj) {struct a} : bool :=
   | ORef i k, ORef j k' => Nat.eqb i j && kind_eqb k k'
   | OAlias i k, OAlias j k' => Nat.eqb i j && kind_eqb k k'
   | OBlank k, OBlank k' => kind_eqb k k'
+  | OVal v, OVal w => val_eqb v w
   | ONode i k1 l1, ONode j k2 l2 =>
       Nat.eqb i j && kind_eqb k1 k2 &&
       (fix leq (l1 l2 : list (key * obj)) {struct l1} : bool :=
